@@ -340,7 +340,10 @@ def c14(c):
     # an invalid encoding must not survive ANY way of using the variable as an element: accessor / comparison
     # sequences on a variable allocated from an invalid encoding (and from valid ones), as lazy-variable traces
     qplan = os.path.join(WORK, "plan_lazy_q_%d.txt" % os.getpid())
-    seqs = ["Q", "QQ", "QC", "CQ", "EQ", "VQ", "QV", "V", "VC", "CV", "E", "C", "CQC", "QCQ"]
+    seqs = ["Q", "QQ", "QC", "CQ", "EQ", "VQ", "QV", "V", "VC", "CV", "E", "C", "CQC", "QCQ",
+            # a satisfied system must also mean that the OUTPUT (encoding / value read afterwards) is the native one,
+            # whatever the variable went through in between
+            "CDC", "CPC", "CMC", "CNC", "CSC", "CTC", "DC", "PC", "VDC", "CDV", "CDQC", "CPDC"]
     open(qplan, "w").write("\n".join(seqs) + "\n")
     c.trace("ark", "lazy", 0, qplan, kinds=["lazy_new", "lazy_op", "lazy_end"], **RT)
     c.exhaustive_parts.append("variables allocated from valid / identity / invalid / random encodings driven through %d accessor and "
